@@ -228,6 +228,29 @@ def oracle_recording(strategy, scitype):
             discs.append(D("forecast_index", "index %s expected %s" % (list(p.index), [cutoff + h for h in steps])))
         if not arr_eq(p.to_numpy(), np.array(exp_pred)):
             discs.append(D("forecast_values_not_step_outputs", "%s: got %s expected %s" % (strategy, p.tolist(), exp_pred)))
+        back = case.get("revision")
+        if back and X is None and not discs and n - back >= wl:
+            # a batch of already known observations that ends before the end of the stored data
+            # moves the cutoff back; the window fed at prediction time is the window_length
+            # observations ending AT THE CUTOFF, not the tail of everything stored
+            end = n - back
+            chunk = y.iloc[max(0, end - 2): end]
+            u = sut(f.update, chunk.copy(), None, False)
+            if isinstance(u, Raised):
+                return [unexpected(u, "update with a batch ending before the stored end")]
+            ctx.label("cutoff_moved_back")
+            n_before = len(doubles.LOG)
+            p2 = sut(f.predict, pred_fh)
+            if isinstance(p2, Raised):
+                return [unexpected(p2, "predict after moving the cutoff back")]
+            calls2 = [e for e in doubles.LOG[n_before:] if e[0] == "predict"]
+            want = shape_in(np.array(yv[end - wl: end], dtype=float)[None, None, :])
+            if not calls2 or not arr_eq(calls2[0][3], want):
+                discs.append(D("predict_window_not_at_cutoff", "%s: cutoff moved to position %d of %d; first predict input %s expected %s"
+                               % (strategy, end - 1, n, np.asarray(calls2[0][3]).tolist() if calls2 else None, want.tolist())))
+            c2 = int(y.index[end - 1])
+            if isinstance(p2, pd.Series) and [int(v) for v in p2.index] != [c2 + h for h in steps]:
+                discs.append(D("forecast_index", "after moving the cutoff back: index %s expected %s" % (list(p2.index), [c2 + h for h in steps])))
         return discs
 
     return oracle
@@ -334,6 +357,7 @@ def cases(draw, strategy=None, allow_exog=True, feasible_bias=9):
         "scitype_arg": draw(st.sampled_from(["infer", "explicit"])),
         "dtype": draw(st.sampled_from(["float64", "float64", "int64"])),
         "prefit": draw(st.integers(0, 4)) == 0,
+        "revision": draw(st.sampled_from([None, None, 1, 2, 3])),
         "n_exog": 0,
     }
     c["n_exog"] = draw(st.integers(0, 3)) if allow_exog else 0
